@@ -156,6 +156,16 @@ def aph_weight_tilted(frame, qe, qg):
     return Out(parts=parts, obs={"w": w})
 
 
+def _analyzer_yaw_error(frame, ego_q):
+    from .c19_analysis import table_yaw_error
+    return table_yaw_error(frame, ego_q)
+
+
+def _frame_extras():
+    from . import scene
+    return scene.frame_extras()
+
+
 def obligations(pid, tier):
     signs = [(1, 1), (1, -1), (-1, 1), (-1, -1)]
     return [
@@ -172,6 +182,10 @@ def obligations(pid, tier):
                    cases=[dict(frame=f, qe=a, qg=b) for f in FRAMES for a in TILTED for b in TILTED if a != b],
                    desc="weight for boxes with roll / pitch (catalogue of 5 exact 3-D orientations, all ordered pairs): "
                         "depends on the yaw difference only"),
+        Obligation("analyzer_yaw_error", _analyzer_yaw_error, extras=_frame_extras,
+                   cases=[dict(frame="base_link", ego_q="id"), dict(frame="map", ego_q="yaw_3_4_5")],
+                   desc="auxiliary (pandas layer, shared with C19): the yaw error the analysis table reports for a pair = "
+                        "wrapped ground-truth-minus-estimate yaw, 49 heading pairs incl. both quaternion signs"),
         Obligation("yaw_error", yaw_error, extras=_extras, cases=[dict(s1=a, s2=b) for a, b in signs],
                    desc="reported yaw error lies in [-pi, pi] with magnitude d, in both orders"),
     ]
